@@ -204,8 +204,8 @@ class Ctx:
             self.last_failure = (_canon(case), list(res.failures))
             raise Violation("; ".join(res.failures[:3]))
 
-    def add_failure(self, case: Any, msgs: list[str]) -> None:
-        b = bucket_of(msgs)
+    def add_failure(self, case: Any, msgs: list[str], bucket: str | None = None) -> None:
+        b = bucket or bucket_of(msgs)
         if any(f["bucket"] == b for f in self.failures):
             return
         self.failures.append({"case": _canon(case), "msgs": msgs[:10], "bucket": b})
